@@ -51,7 +51,57 @@ type DB struct {
 	Exp  map[string]int64 // unix-second deadline
 	Now  int64            // set by Exec
 	// SoftTTL: keys whose deadline came from RENAME (don't-care whether it was transferred)
-	SoftTTL map[string]bool
+	SoftTTL  map[string]bool
+	purgeNow *int64 // ExecP: clock used for expiry decisions when it differs from Now
+}
+
+// Clone makes a deep copy (for checks that track several possible worlds).
+func (db *DB) Clone() *DB {
+	c := NewDB()
+	c.Now = db.Now
+	for k, v := range db.Keys {
+		nv := &Val{Kind: v.Kind, LastID: v.LastID}
+		nv.Str = append([]byte(nil), v.Str...)
+		for _, e := range v.List {
+			nv.List = append(nv.List, append([]byte{}, e...))
+		}
+		if v.Set != nil {
+			nv.Set = map[string]bool{}
+			for m := range v.Set {
+				nv.Set[m] = true
+			}
+		}
+		if v.Hash != nil {
+			nv.Hash = map[string][]byte{}
+			for f, x := range v.Hash {
+				nv.Hash[f] = append([]byte{}, x...)
+			}
+		}
+		if v.Z != nil {
+			nv.Z = map[string]float64{}
+			for m, sc := range v.Z {
+				nv.Z[m] = sc
+			}
+		}
+		nv.Stream = append([]StreamEntry(nil), v.Stream...)
+		c.Keys[k] = nv
+	}
+	for k, d := range db.Exp {
+		c.Exp[k] = d
+	}
+	for k := range db.SoftTTL {
+		c.SoftTTL[k] = true
+	}
+	return c
+}
+
+// ExecP is Exec with a separate clock for expiry decisions: a key whose deadline d satisfies
+// purgeNow < d <= now is still treated as present (used for the second in which a deadline that is
+// only known to whole-second precision may or may not have passed).
+func (db *DB) ExecP(cmd [][]byte, now, purgeNow int64) Reply {
+	db.purgeNow = &purgeNow
+	defer func() { db.purgeNow = nil }()
+	return db.Exec(cmd, now)
 }
 
 func NewDB() *DB {
@@ -59,8 +109,12 @@ func NewDB() *DB {
 }
 
 func (db *DB) purge() {
+	now := db.Now
+	if db.purgeNow != nil {
+		now = *db.purgeNow
+	}
 	for k, d := range db.Exp {
-		if d <= db.Now {
+		if d <= now {
 			delete(db.Keys, k)
 			delete(db.Exp, k)
 		}
